@@ -269,6 +269,10 @@ def step (s : St) (w : List String) : St × String :=
     match parseItems (items.splitOn ",") with
     | some xs => ({ s with data := xs }, s!"R ok | C - | I len={xs.length}")
     | none => (s, "bad-op")
+  | ["l", "empty"] =>
+    -- no values: nothing is read, the empty part is returned
+    let p := linepartLinear [] s.range
+    (s, s!"R part {fmtPart p} | C - | I - | S part 0:0:0:0 ; *")
   | ["l", "run"] => (s, runLine s)
   | ["l", "code", v] =>
     match Dyadic.parse v with
